@@ -1,6 +1,7 @@
 """C03 — a set changes exactly the matched nodes (and their aliases), nothing else."""
 from __future__ import annotations
 
+import copy
 import json
 import os
 import random
@@ -31,6 +32,10 @@ RULE = ("(1) value tables: Nodes.typed_value on every text of length <= 3 over a
         "generated paths of seeded documents (anchored targets with aliases included): in memory the matched scalars and their "
         "aliases hold exactly that number and nothing else changed; after dump + strict reload the reloaded number == the "
         "written number.  "
+        "Sizes: quick 12 000 documents x 3 edits, 2 500 histories, 1 200 merge-key documents; thorough 150 000 documents x 3 "
+        "edits, 40 000 histories, 12 000 merge-key documents (trimmed from 200 000 / 20 000 to keep the thorough tier under "
+        "~20 min on a loaded 16-core machine; the value tables of (1) stay exhaustive in both tiers; all histories of one "
+        "worker job go to the model in one driver call).  "
         "distinct_nontrivial = distinct single edits that changed >= 1 node + distinct histories with >= 2 effective steps.")
 
 FMT_RELOADABLE = {"DEFAULT", "DQUOTE", "SQUOTE", "BOOLEAN", "FLOAT", "INT"}
@@ -101,9 +106,9 @@ def run(chk: core.Check):
                     pass
         rng = random.Random(chk.seed)
         quick = chk.tier == "quick"
-        cases += gen_cases(rng, 12000 if quick else 200000)
+        cases += gen_cases(rng, 12000 if quick else 150000)
         cases += gen_histories(rng, 2500 if quick else 40000, 8 if quick else 30)
-        mcases = gen_merge_cases(rng, 1200 if quick else 20000)
+        mcases = gen_merge_cases(rng, 1200 if quick else 12000)
         chk.extra_cov["merge_key_document_cases"] = len(mcases)
         cases += mcases
         fcases = gen_float_cases(rng, 4500 if quick else 60000)
@@ -708,7 +713,7 @@ def _job(cases):
 
     def bump(k):
         stats[k] = stats.get(k, 0) + 1
-    pend = []
+    pend, hpend = [], []
     for case in cases:
         if case.get("merge"):
             stats["n"] += 1
@@ -727,7 +732,9 @@ def _job(cases):
         if case.get("history"):
             stats["n"] += 1
             try:
-                run_history(case, bump, viol, disag, keys, stats)
+                h = run_history(case, bump)
+                if h is not None:
+                    hpend.append(h)
             except codec.OutOfModel:
                 stats["oom"] += 1
             continue
@@ -784,6 +791,16 @@ def _job(cases):
         answers = core.Driver().ask([p[-1] for p in pend])
         for (case, addrs, rename, res, after, rl, _), ans in zip(pend, answers):
             judge(case, addrs, rename, res, after, rl, ans, bump, viol, disag, samples, keys, stats)
+    if hpend:
+        # one model call for all histories of the job (starting the driver costs more than a whole history)
+        answers = core.Driver().ask([r for h in hpend for r in h[0]])
+        pos = 0
+        for h in hpend:
+            try:
+                judge_history(h, answers[pos:pos + len(h[0])], bump, viol, disag, keys, stats)
+            except codec.OutOfModel:
+                stats["oom"] += 1
+            pos += len(h[0])
     return stats, viol, disag, samples, keys
 
 
@@ -859,7 +876,9 @@ def make_step(rng, j):
     return {"o": "create", "segs": segs, "path": c09.path_text(segs), "v": [v[0], v[1]], "fmt": fmt}
 
 
-def run_history(case, bump, viol, disag, keys, stats):
+def run_history(case, bump):
+    """The real side of one history: every step on the real document, a snapshot after each, and the model requests
+    (one per step from the real document before it, plus the whole history threaded through the model)."""
     from yamlpath import Processor
     from yamlpath.enums import YAMLValueFormats
     j0 = case["doc"]
@@ -872,7 +891,7 @@ def run_history(case, bump, viol, disag, keys, stats):
         step = st.get("step") or make_step(rng, cur)
         st["step"] = step
         if step["o"] in ("set", "delete"):
-            g = ed.gather(cur, step["path"], step["o"])
+            g = ed.gather(cur, step["path"], step["o"], twin=copy.deepcopy(proc.data))
             if g[0] != "ok" or not g[1]:
                 bump("history-step-skipped:" + g[0])
                 continue
@@ -903,9 +922,14 @@ def run_history(case, bump, viol, disag, keys, stats):
         cur = after
         bump("history-step:" + step["o"])
     if not reqs:
-        return
+        return None
     reqs.append({"op": "C03.history", "doc": j0, "ops": ops})
-    ans = core.Driver().ask(reqs)
+    return reqs, case, expect, cur
+
+
+def judge_history(h, ans, bump, viol, disag, keys, stats):
+    _reqs, case, expect, cur = h
+    j0 = case["doc"]
     rep = {"doc": j0, "steps": case["steps"], "history": True}
     effective = 0
     for (step, res, before, after), a in zip(expect, ans):
